@@ -143,6 +143,14 @@ CHECKS = {
         ".odc: present, original CRS, array shape, equal to the original after value-only histories, the centre of every corner pixel at the world location the model prescribes, whole pixel footprints for unit "
         "steps, and agreement with the coordinate labels (exact, half-pixel lattice). Reprojection: 3x4 CRS pairs x DataArray/Dataset x numpy/dask x geobox/crs targets x rotated sources - recovered GeoBox = requested, CRS, no stale attributes.",
    ref="5/C09", note=TB + "reprojection clauses are booleans computed from the real objects (GeoBox comparison up to 1e-9 pixel, CRS ==, attribute inspection); non-affine GCPs not covered"),
+ "C11": dict(
+   technique="TLA+ decision model of compute_output_geobox options and contract relative to an environment table (OutputGeobox) checked by TLC; real compute_output_geobox / GeoBox.to_crs / .odc.output_geobox results validated by TLC against pyproj-tabulated corner positions",
+   text="The decision model says which clause applies to an option set (identity short cut, source resolution for equal units, fitted square pixels, explicit resolution, shape / longest side, alignment by anchor, "
+        "tight) and TLC checks its consistency and emits sources x targets x options. The real functions are run (three entry points) for metre- and degree-based tiles, a rotated tile, continental extents, "
+        "southern-hemisphere and equator-straddling tiles into 9 targets incl. utm / utm-n / utm-s; the harness tabulates with a fresh pyproj transformer where every boundary pixel corner and an interior sample of "
+        "the source falls in output pixel coordinates (1/1024 px) and TLC decides: axis-aligned in the requested CRS, every position inside the grid up to tol, pixel edges at the requested anchor fraction, source "
+        "resolution for equal units, square fitted pixels, explicit resolution, requested shape with sub-pixel displacement, identity for the own CRS with default options, and the UTM hemisphere / zone rules.",
+   ref="5/C11", note=TB + "PROJ is an environment table; UTM area of use comes from the pyproj database; the source's own CRS with non-default options is not constrained by the statement (skipped)"),
 }
 
 NOT_YET = "check not built yet (work in progress); see DESIGN.md"
